@@ -73,3 +73,92 @@ Definition plain_state (b : lb) (cs : changeset) (kr : KillRing.killring) (hist 
            (im : input_mode) (lc : cmd) (lcs : option char_search) (inp : istream)
            (out : list (list N)) (obs : list observation) : est :=
   mkEst b cs kr hist hidx saved None lay prompt ps im 0%Z lc lcs inp out obs.
+
+(* ---------- numeric arguments (README: "M-digit / M--": the command is repeated, a negative
+   argument runs the command in the opposite direction) ---------- *)
+
+(* with the argument -3 pending *)
+Definition doc_emacs_neg3 : list (key * cmd) :=
+  [ (k_ctrl 70, CMove (MBackwardChar 3)); (k_ctrl 66, CMove (MForwardChar 3));
+    (k_named KRight, CMove (MBackwardChar 3)); (k_named KLeft, CMove (MForwardChar 3));
+    (k_named KDelete, CKill (MBackwardChar 3));
+    (k_ctrl 72, CKill (MForwardChar 3)); (k_named KBackspace, CKill (MForwardChar 3));
+    (k_ctrl 75, CKill MBeginningOfLine); (k_ctrl 85, CKill MEndOfLine);
+    (k_alt 102, CMove (MBackwardWord 3 WEmacs)); (k_alt 98, CMove (MForwardWord 3 AtAfterEnd WEmacs));
+    (k_alt 100, CKill (MBackwardWord 3 WEmacs)); ((KBackspace, M_ALT), CKill (MForwardWord 3 AtAfterEnd WEmacs));
+    (k_ctrl 87, CKill (MForwardWord 3 AtAfterEnd WBig));
+    (k_ctrl 73, CCompleteBackward); (k_named KTab, CCompleteBackward);
+    (k_plain 97, CUnknown); (k_ctrl 89, CUnknown) ]%N.
+
+(* with the argument 7 pending *)
+Definition doc_emacs_pos7 : list (key * cmd) :=
+  [ (k_ctrl 70, CMove (MForwardChar 7)); (k_ctrl 66, CMove (MBackwardChar 7));
+    (k_named KRight, CMove (MForwardChar 7)); (k_named KLeft, CMove (MBackwardChar 7));
+    (k_named KDelete, CKill (MForwardChar 7));
+    (k_ctrl 72, CKill (MBackwardChar 7)); (k_named KBackspace, CKill (MBackwardChar 7));
+    (k_alt 102, CMove (MForwardWord 7 AtAfterEnd WEmacs)); (k_alt 98, CMove (MBackwardWord 7 WEmacs));
+    (k_alt 100, CKill (MForwardWord 7 AtAfterEnd WEmacs)); ((KBackspace, M_ALT), CKill (MBackwardWord 7 WEmacs));
+    (k_ctrl 87, CKill (MBackwardWord 7 WBig)); (k_alt 116, CTransposeWords 7);
+    (k_ctrl 89, CYank 7 ABefore); (k_ctrl 95, CUndo 7);
+    (k_plain 97, CSelfInsert 7 97) ]%N.
+
+Definition doc_vi_command_5 : list (key * cmd) :=
+  [ (k_plain 104, CMove (MBackwardChar 5)); (k_plain 108, CMove (MForwardChar 5)); (k_plain 32, CMove (MForwardChar 5));
+    (k_plain 119, CMove (MForwardWord 5 AtStart WVi)); (k_plain 87, CMove (MForwardWord 5 AtStart WBig));
+    (k_plain 98, CMove (MBackwardWord 5 WVi)); (k_plain 66, CMove (MBackwardWord 5 WBig));
+    (k_plain 101, CMove (MForwardWord 5 AtBeforeEnd WVi)); (k_plain 69, CMove (MForwardWord 5 AtBeforeEnd WBig));
+    (k_plain 120, CKill (MForwardChar 5)); (k_plain 88, CKill (MBackwardChar 5));
+    (k_plain 112, CYank 5 AAfter); (k_plain 80, CYank 5 ABefore); (k_plain 117, CUndo 5);
+    (k_plain 106, CLineDownOrNextHistory 5); (k_plain 107, CLineUpOrPreviousHistory 5);
+    (k_plain 115, CReplace (MForwardChar 5) None) ]%N.
+
+Definition with_arg (s : est) (z : Z) : est :=
+  mkEst (e_line s) (e_changes s) (e_kr s) (e_hist s) (e_hidx s) (e_saved s) (e_hint s) (e_layout s) (e_prompt s)
+        (e_prompt_size s) (i_input_mode s) z (i_last_cmd s) (i_last_cs s) (e_inp s) (e_out s) (e_obs s).
+
+(* ---------- the byte decoder: the standard encodings of the documented keys ---------- *)
+
+(* Unicode data whose control class is the C0/C1 controls (general category Cc; the
+   check compares this with the table dumped from the implementation's std) *)
+Definition is_cc (c : N) : bool := ((c <? 32) || ((127 <=? c) && (c <? 160)))%N.
+Definition with_cc (U : UData) : UData :=
+  Build_UData (u_is_whitespace U) (u_is_alphanumeric U) (u_is_alphabetic U) is_cc (u_is_lowercase U)
+              (u_is_uppercase U) (u_to_upper U) (u_to_lower U) (u_width U) (u_gcat U) (u_incb_extend U) (u_incb_linker U).
+
+Definition csi (s : list N) : list N := (27 :: 91 :: s)%N.
+Definition ss3 (s : list N) : list N := (27 :: 79 :: s)%N.
+Definition M_SHIFT := mkMods false false true.
+
+Definition doc_encodings : list (list N * key) :=
+  [ ([1], k_ctrl 65); ([2], k_ctrl 66); ([3], k_ctrl 67); ([4], k_ctrl 68); ([5], k_ctrl 69); ([6], k_ctrl 70);
+    ([7], k_ctrl 71); ([8], k_named KBackspace); ([9], k_named KTab); ([10], k_ctrl 74); ([11], k_ctrl 75);
+    ([12], k_ctrl 76); ([13], k_named KEnter); ([14], k_ctrl 78); ([16], k_ctrl 80); ([17], k_ctrl 81);
+    ([18], k_ctrl 82); ([19], k_ctrl 83); ([20], k_ctrl 84); ([21], k_ctrl 85); ([22], k_ctrl 86); ([23], k_ctrl 87);
+    ([24], k_ctrl 88); ([25], k_ctrl 89); ([26], k_ctrl 90); ([29], k_ctrl 93); ([31], k_ctrl 95); ([127], k_named KBackspace);
+    ([97], k_plain 97); ([233], k_plain 233); ([26085], k_plain 26085); ([128512], k_plain 128512);
+    (csi [65], k_named KUp); (csi [66], k_named KDown); (csi [67], k_named KRight); (csi [68], k_named KLeft);
+    (csi [72], k_named KHome); (csi [70], k_named KEnd); (csi [90], k_named KBackTab);
+    (ss3 [65], k_named KUp); (ss3 [66], k_named KDown); (ss3 [67], k_named KRight); (ss3 [68], k_named KLeft);
+    (ss3 [72], k_named KHome); (ss3 [70], k_named KEnd);
+    (csi [49; 126], k_named KHome); (csi [50; 126], k_named KInsert); (csi [51; 126], k_named KDelete);
+    (csi [52; 126], k_named KEnd); (csi [53; 126], k_named KPageUp); (csi [54; 126], k_named KPageDown);
+    (csi [55; 126], k_named KHome); (csi [56; 126], k_named KEnd);
+    (csi [49; 59; 53; 67], (KRight, M_CTRL)); (csi [49; 59; 53; 68], (KLeft, M_CTRL));
+    (csi [49; 59; 51; 67], (KRight, M_ALT)); (csi [49; 59; 51; 68], (KLeft, M_ALT));
+    (csi [49; 59; 50; 65], (KUp, M_SHIFT)); (csi [49; 59; 50; 66], (KDown, M_SHIFT));
+    (csi [50; 48; 48; 126], k_named KPasteStart); (csi [50; 48; 49; 126], k_named KPasteEnd);
+    ([27; 98], k_alt 98); ([27; 102], k_alt 102); ([27; 100], k_alt 100); ([27; 121], k_alt 121); ([27; 60], k_alt 60);
+    ([27; 62], k_alt 62); ([27; 45], k_alt 45); ([27; 53], k_alt 53); ([27; 127], (KBackspace, M_ALT));
+    ([27; 29], (KChar 93, M_CTRL_ALT)); ([27; 7], (KChar 71, M_CTRL_ALT)) ]%N.
+
+Definition with_input (s : est) (i : istream) : est :=
+  mkEst (e_line s) (e_changes s) (e_kr s) (e_hist s) (e_hidx s) (e_saved s) (e_hint s) (e_layout s) (e_prompt s)
+        (e_prompt_size s) (i_input_mode s) (i_num_args s) (i_last_cmd s) (i_last_cs s) i (e_out s) (e_obs s).
+
+(* decoding a chunk that holds exactly these characters: the key, and what is left of the chunk *)
+Definition decode_one (U : UData) (cfg : config) (sea : bool) (s : est) (rest : list (list inchar)) (chars : list N)
+  : option (key * list inchar * list (list inchar)) :=
+  match next_key U cfg sea (with_input s (mkIn (map Ch chars) rest)) with
+  | EOk k s' => Some (k, in_cur (e_inp s'), in_rest (e_inp s'))
+  | _ => None
+  end.
